@@ -18,7 +18,9 @@ CLAIMS = {
         'the inputs imply; TLC-simulated histories (length <= 40) are executed on the real Snapshotter with hostile member '
         'names (spaces, tabs, "alive: x" look-alikes, UTF-8, 100-byte names), IPv4/IPv6/empty addresses and 64-bit Lamport '
         'times, each under minCompactSize 0 / 300 / 128K, the state recovered by a second real NewSnapshotter is compared '
-        'by TLC with the expected one and across thresholds; a separate input class with a member name containing '
+        'by TLC with the expected one and across thresholds; each history is also re-run with minCompactSize placed (from the '
+        'log sizes of its uncompacted run) so that a chosen alive / not-alive / clock line is exactly the one that crosses '
+        'the threshold; a separate input class with a member name containing '
         '"\\nleave\\n" is run and reported (tag nl_name).',
         _TRUST, _TECH, '5 C10',
     ),
@@ -28,7 +30,9 @@ CLAIMS = {
         'every executed history is a crash point: the directory image captured there is replayed by a fresh real '
         'NewSnapshotter and TLC checks that the recovered state is one the snapshotter held in memory at or after the last '
         'moment all its data was with the OS, and that the snapshot file exists once something was written; the model is '
-        'checked exhaustively with a crash possible after every operation and restarts from the crash image.',
+        'checked exhaustively with a crash possible after every operation and restarts from the crash image; a directed class '
+        'crashes INSIDE a compaction (after the write / sync / close of the temp file), restarts on the image with the stale '
+        'temp file, removes a member, compacts again and restarts (second generation).',
         _TRUST, _TECH, '5 C11',
     ),
     'C12': (
@@ -44,7 +48,9 @@ CLAIMS = {
         'TLC checks exhaustively on the model, for both settings of rejoin-after-leave and thresholds {0, small, never}, that '
         'after a graceful leave and shutdown a restart re-joins nobody (disabled) / exactly the set known at the leave '
         '(enabled), with events, ticks and forced compactions before and after the leave and a further session appending '
-        'after the leave line; simulated histories with a leave are executed on the real Snapshotter and validated by TLC.',
+        'after the leave line; simulated histories with a leave are executed on the real Snapshotter and validated by TLC, '
+        'including bursts of events still buffered at shutdown and histories whose threshold is placed so that the 6-byte '
+        'leave line itself triggers the compaction.',
         _TRUST, _TECH, '5 C13',
     ),
 }
@@ -250,7 +256,13 @@ def _next():
         return _seq[0]
 
 
-def run_chunk(ctx, binary, scheds, tag):
+class _NoReport:
+    """Stands for a TraceReport when a chunk is only executed (learning pass), not validated."""
+    traces = lines = 0
+    diverged = monitors = ()
+
+
+def run_chunk(ctx, binary, scheds, tag, validate=True):
     """Driver (child processes inside) + trace validation of one chunk.  Returns (report, panics text)."""
     sub = SubCtx(ctx, "chunk-%s-%d" % (tag, _next()))
     sp = os.path.join(sub.scratch, "sched.ndjson")
@@ -266,21 +278,26 @@ def run_chunk(ctx, binary, scheds, tag):
     panics = ""
     if os.path.exists(tp + ".panics"):
         panics = open(tp + ".panics").read().strip()
-    rep = vlib.validate(sub, "Trace_Snapshot", trace_cfg(), tp, timeout=3000)
+    if validate:
+        rep = vlib.validate(sub, "Trace_Snapshot", trace_cfg(), tp, timeout=3000)
+    else:
+        rep = _NoReport()
+        rep.diverged, rep.monitors = [], []
     rep.path = tp
     return rep, panics
 
 
-def run_all(ctx, binary, scheds, tag, par=None):
-    """Splits the schedules over parallel driver+validator pairs.  Returns a merged summary."""
+def run_all(ctx, binary, scheds, tag, par=None, validate=True):
+    """Splits the schedules over parallel driver+validator pairs.  Returns a merged summary.
+    validate=False: a learning pass (executed on the real code, read by the family, judged by nobody)."""
     par = par or max(2, min(8, vlib.NCPU // 2))
     n = max(1, min(par, (len(scheds) + 3) // 4))
     chunks = [scheds[i::n] for i in range(n)]
     with ThreadPoolExecutor(max_workers=n) as ex:
-        futs = [ex.submit(run_chunk, ctx, binary, ch, tag) for ch in chunks if ch]
+        futs = [ex.submit(run_chunk, ctx, binary, ch, tag, validate) for ch in chunks if ch]
         results = [f.result() for f in futs]
     summ = {"traces": 0, "lines": 0, "diverged": [], "monitors": [], "panics": [], "ops": 0, "crashpoints": 0,
-            "restarts": 0, "faults": 0, "finals": {}, "opcount": {}}
+            "restarts": 0, "faults": 0, "finals": {}, "opcount": {}, "sizes": {}}
     for rep, panics in results:
         summ["traces"] += rep.traces
         summ["lines"] += rep.lines
@@ -289,12 +306,17 @@ def run_all(ctx, binary, scheds, tag, par=None):
         if panics:
             summ["panics"] += panics.splitlines()
         cur, step = None, -1
+        off, alive = 0, []
         for ln in vlib.read_ndjson(rep.path):
             a = ln["act"]["a"]
             if a == "reset":
                 cur, step = ln["act"]["id"], -1
                 summ["opcount"][cur] = []
+                summ["sizes"][cur] = []
+                off, alive = 0, []
             elif a == "op":
+                if ln["act"]["f"] == "tmp" and summ["sizes"][cur]:
+                    summ["sizes"][cur][-1]["compact"] = True
                 if ln["act"]["op"] != "bufw":
                     summ["ops"] += 1
                     if summ["opcount"][cur]:
@@ -305,10 +327,19 @@ def run_all(ctx, binary, scheds, tag, par=None):
             elif a == "started":
                 summ["restarts"] += 1
                 summ["finals"][cur] = ln["obs"].get("st")
+                off, alive = ln["obs"].get("off", 0), (ln["obs"].get("st") or {}).get("alive", [])
+            elif a == "done":
+                off, alive = ln["obs"]["mem"]["off"], ln["obs"]["mem"]["alive"]
+                if summ["sizes"][cur] and summ["sizes"][cur][-1]["after"] is None:
+                    summ["sizes"][cur][-1]["after"] = off
+                    summ["sizes"][cur][-1]["n_after"] = sum(1 for x in alive if x)
             if a in ("feed", "tick", "leave", "shutdown", "started", "wit", "adv", "crash", "burst"):
                 step += 1
                 if a in ("feed", "tick", "leave", "shutdown"):
                     summ["opcount"][cur].append([step, 0])
+                    # log size (the snapshotter's offset) before / after the input, members alive, compaction seen
+                    summ["sizes"][cur].append({"step": step, "a": a, "ty": ln["act"].get("ty", 0), "before": off, "after": None,
+                                               "n": sum(1 for x in alive if x), "n_after": 0, "compact": False})
     return summ
 
 
@@ -404,19 +435,82 @@ def variants(rng, base, sid0, thresholds, rals, classes):
     return out
 
 
+def crossing_points(entries, kinds=None):
+    """Inputs of a run WITHOUT compaction (threshold 128K) at which a threshold can be placed so that a chosen line of
+    that input is the one that crosses it: the log before the input must be at least the node-count estimate
+    (256 bytes x members alive), otherwise the estimate, not minCompactSize, is the threshold."""
+    res = []
+    for e in entries:
+        if e["after"] is None or e["compact"] or e["after"] <= e["before"] or e["a"] == "shutdown":
+            continue
+        if e["before"] < 256 * max(e["n"], e["n_after"]):
+            continue
+        if kinds and (e["a"], e["ty"]) not in kinds and (e["a"], 0) not in kinds:
+            continue
+        res.append(e)
+    return res
+
+
+def merge(a, b):
+    """Adds the summary of a second batch to the first."""
+    for k in ("traces", "lines", "ops", "crashpoints", "restarts", "faults"):
+        a[k] += b[k]
+    for k in ("diverged", "monitors", "panics"):
+        a[k] = list(a[k]) + list(b[k])
+    for k in ("finals", "opcount", "sizes"):
+        a[k].update(b[k])
+    return a
+
+
+def pick_crossings(rng, entries, per):
+    """Up to `per` crossing points of one history, different line kinds first; each with d = 0 (first line of the
+    input crosses) or d = bytes-1 (its last line crosses)."""
+    pts = crossing_points(entries)
+    rng.shuffle(pts)
+    out, kinds = [], set()
+    for e in pts:                       # one per kind of input first
+        k = (e["a"], e["ty"])
+        if k not in kinds and len(out) < per:
+            kinds.add(k)
+            out.append(e)
+    for e in pts:
+        if e not in out and len(out) < per:
+            out.append(e)
+    return [(e, 0 if i % 2 == 0 else e["after"] - e["before"] - 1) for i, e in enumerate(out)]
+
+
+def directed(s, e, d, sid):
+    """The same history and concretization as s with minCompactSize = (log size before input e) + d:
+    d = 0 makes the FIRST line that input appends cross the threshold, d = (bytes appended) - 1 the LAST one."""
+    c = s["cfg"]
+    return mk(sid, s["steps"], e["before"] + d, c["ral"], c["cls"], c["tcls"], c["cid"])
+
+
 def run_c10(ctx, binary):
     th = ctx.thorough()
     bg = Background(ctx, lambda c: (
         exhaustive(c, consts(2, 1 if th else 2, 1, 6 if th else 5, 2, 0, False, False, "{0, 60, 100000}", "{FALSE}"), "C10"),
         {"nl_name": reachable(c, consts(2, 1, 1, 4, 2, 0, False, False, "{100000}", "{FALSE}", evil="{2}"),
                               "NoC10rejoin", "C10 newline name")}))
-    num, depth = (400, 40) if th else (48, 36)
+    num, depth = (400, 40) if th else (40, 36)
     base = [close_session(s) for s in simulate(ctx, [1, 1, 2, 3, 4, 5, 6, 7, 8, 10], num, depth)]
     rng = random.Random(ctx.seed)
     scheds = variants(rng, base, 0, THRESHOLDS, [False, True], ["hostile", "hostile", "plain"])
     nl = [s for s in base if any(st["a"] == "feed" and st["ty"] == 1 for st in s)][: (40 if th else 8)]
     scheds += variants(rng, nl, 100000, [0, 128 * 1024], [False, True], ["newline"])
     summ = run_all(ctx, binary, scheds, "c10")
+    # boundary-directed thresholds: the runs without compaction (128K) tell the log size before every input; each
+    # history is run again with minCompactSize placed so that a chosen line (alive / not-alive / clock / event-clock /
+    # query-clock) is exactly the one that crosses it
+    dscheds = []
+    for s in list(scheds):
+        if s["cfg"]["mcs"] != 128 * 1024 or s["cfg"]["cls"] == "newline":
+            continue
+        for (e, d) in pick_crossings(rng, summ["sizes"].get(s["id"], []), 3 if th else 1):
+            dscheds.append(directed(s, e, d, 200000 + len(dscheds)))
+    if dscheds:
+        summ = merge(summ, run_all(ctx, binary, dscheds, "c10d"))
+        scheds += dscheds
     by_id = {s["id"]: s for s in scheds}
     viol, seen = confirm(ctx, binary, summ, by_id, "C10_")
     # the recovered state must not depend on the compaction threshold
@@ -443,7 +537,8 @@ def run_c10(ctx, binary):
                                " with 40 bytes/node; simulation: 3 names x 3 addresses, times 0..6 (0..24 with the appended inputs) mapped "
                                "to 64-bit values",
             "evaluations": summ["restarts"], "histories_differing_across_thresholds": differ,
-            "newline_class_schedules": len([s for s in scheds if s["cfg"]["cls"] == "newline"])},
+            "newline_class_schedules": len([s for s in scheds if s["cfg"]["cls"] == "newline"]),
+            "threshold_directed_schedules": len(dscheds)},
            ASSUME)
 
 
@@ -455,7 +550,7 @@ def run_c11(ctx, binary):
         exhaustive(c, consts(2, 2 if th else 1, 2 if th else 1, 4, 3, 0, True, True, "{0, 60, 100000}", "{FALSE, TRUE}"), "C11"),
         {"rm_window": reachable(c, consts(2, 1, 1, 3, 1, 0, False, False, "{0}", "{FALSE}"), "NoC11safe",
                                 "C11 remove/rename window")}))
-    num, depth = (400, 40) if th else (64, 36)
+    num, depth = (400, 40) if th else (54, 36)
     base = simulate(ctx, [1, 2, 3, 4, 5, 6, 7, 8, 9, 10, 11, 12], num, depth, crash=True, leave=True, sess=4)
     base = [close_session(s) for s in base]
     scheds = []
@@ -463,6 +558,45 @@ def run_c11(ctx, binary):
         scheds.append(mk(i, steps, THRESHOLDS[i % 3], (i // 3) % 2 == 1, "hostile" if i % 4 else "plain",
                          "wide" if i % 2 else "small", i))
     summ = run_all(ctx, binary, scheds, "c11")
+    rng = random.Random(ctx.seed)
+    # (a) boundary-directed thresholds from the runs without compaction
+    dscheds = []
+    for s in list(scheds):
+        if s["cfg"]["mcs"] == 128 * 1024:
+            for (e, d) in pick_crossings(rng, summ["sizes"].get(s["id"], []), 2 if th else 1):
+                dscheds.append(directed(s, e, d, 200000 + len(dscheds)))
+    # (b) second generation after a crash INSIDE a compaction: the crash image contains the old snapshot and a stale
+    # <snap>.compact; the process restarts on it, a member recorded in the stale image goes away, the log is compacted
+    # again (the temp file must be truncated, not continued), shutdown, restart
+    gen2, learn = [], []
+    for i in range(16 if th else 6):
+        nm, ad = 1 + i % NN, 1 + (i // 2) % NA
+        pre = [{"a": "started"}, feed(1, [[nm, ad]])]
+        if i % 2:
+            pre += [feed(6, [], 1 + i % GEN_MAXT), feed(1, [[1 + (nm % NN), ad]]), feed(2, [[1 + (nm % NN), 0]])]
+        for v in range(GEN_MAXT + 1, GEN_MAXT + 15):
+            pre += [{"a": "wit", "v": v}, {"a": "tick", "fail": 0}]
+        pre += [{"a": "wit", "v": GEN_MAXT + 15}]
+        if i % 3 != 2:
+            pre += [{"a": "adv", "d": 6}]          # the crossing append also flushes: the whole log is with the OS
+        x = {"a": "tick", "fail": 0}
+        learn.append((i, pre, mk(300000 + i, close_session(pre + [x]), 128 * 1024, False, "hostile" if i % 2 else "plain", "wide", 300000 + i)))
+    lsum = run_all(ctx, binary, [l[2] for l in learn], "c11learn", validate=False)
+    for (i, pre, ls) in learn:
+        ent = [e for e in lsum["sizes"].get(ls["id"], []) if e["step"] == len(pre)]
+        if not ent or ent[0]["after"] is None or ent[0]["before"] < 256 * max(ent[0]["n"], 1):
+            continue
+        nm = pre[1]["ms"][0][0]
+        for j, sel in enumerate(["write:tmp", "sync:tmp", "close:tmp"]):
+            steps = pre + [{"a": "tick", "fail": 0}, {"a": "crash", "k": 0, "at": sel}, {"a": "started"},
+                           feed(3 if j % 2 else 2, [[nm, 0]]),
+                           {"a": "wit", "v": GEN_MAXT + 16}, {"a": "tick", "fail": 0},
+                           {"a": "wit", "v": GEN_MAXT + 17}, {"a": "tick", "fail": 0},
+                           {"a": "shutdown", "fail": 0}, {"a": "started"}]
+            gen2.append(mk(310000 + len(gen2), steps, ent[0]["before"], False, ls["cfg"]["cls"], "wide", ls["cfg"]["cid"]))
+    if dscheds or gen2:
+        summ = merge(summ, run_all(ctx, binary, dscheds + gen2, "c11d"))
+        scheds += dscheds + gen2
     viol, seen = confirm(ctx, binary, summ, {s["id"]: s for s in scheds}, "C11_")
     mc, reach = bg.join()
     finish(ctx, "fault_enumeration", mc, reach, summ, scheds, viol, seen,
@@ -471,7 +605,8 @@ def run_c11(ctx, binary):
            "by a restart from the crash image; distinct = distinct (history, threshold)",
            {"model_constants": "exhaustive: 2 names x %d addresses, times 0..%d, <=%d inputs, 3 sessions, crash after any "
                                "operation, leave allowed, both rejoin-after-leave settings, thresholds {0,60,never}" % (2 if th else 1, 2 if th else 1, 4),
-            "evaluations": summ["crashpoints"]}, ASSUME)
+            "evaluations": summ["crashpoints"], "threshold_directed_schedules": len(dscheds),
+            "second_generation_after_crash_in_compaction": len(gen2)}, ASSUME)
 
 
 # ----------------------------------------------------------------------------------------- C12
@@ -529,7 +664,7 @@ def run_c13(ctx, binary):
     th = ctx.thorough()
     bg = Background(ctx, lambda c: exhaustive(
         c, consts(2, 1, 2 if th else 1, 5, 3 if th else 2, 0, False, True, "{0, 60, 100000}", "{FALSE, TRUE}"), "C13"))
-    num, depth = (300, 36) if th else (48, 30)
+    num, depth = (300, 36) if th else (40, 30)
     base = simulate(ctx, [1, 1, 2, 3, 4, 5, 6, 7, 8, 9, 9, 10], num, depth, leave=True, sess=3)
     rng = random.Random(ctx.seed)
     scheds = []
@@ -554,7 +689,34 @@ def run_c13(ctx, binary):
             steps = close_session(steps)
         scheds.append(mk(i, steps, THRESHOLDS[i % 3], (i // 3) % 2 == 0, "hostile" if i % 4 else "plain",
                          "wide" if i % 2 else "small", i))
-    summ = run_all(ctx, binary, scheds, "c13")
+    # the leave line itself is the one that crosses the compaction threshold: histories cut at their leave, with one
+    # member alive and enough clock lines before it that the log exceeds the node-count estimate; a learning run
+    # (no compaction) gives the log size S at the leave, then minCompactSize = S + d for d in {0, 5} ("leave\n" is 6 bytes)
+    learn = []
+    for i, steps in enumerate(base[: (120 if th else 24)]):
+        steps = [st for st in steps if st["a"] not in ("leave", "burst")]
+        if not is_up(steps):
+            steps.append({"a": "started"})
+        nm = 1 + i % NN
+        steps += [feed(3, [[1 + nm % NN, 0]]), feed(2, [[1 + (nm + 1) % NN, 0]]), feed(1, [[nm, 1 + i % NA]])]
+        for v in range(GEN_MAXT + 1, GEN_MAXT + 13):
+            steps += [{"a": "wit", "v": v}, {"a": "tick", "fail": 0}]
+        if i % 2:
+            steps += [{"a": "adv", "d": 6}]
+        steps += [{"a": "leave", "fail": 0}]
+        li = len(steps) - 1
+        if i % 3 == 0:
+            steps += [{"a": "wit", "v": GEN_MAXT + 13}, {"a": "tick", "fail": 0}]
+        learn.append((li, mk(400000 + i, close_session(steps), 128 * 1024, i % 4 == 3, "hostile" if i % 3 else "plain", "wide", 400000 + i)))
+    lsum = run_all(ctx, binary, [l[1] for l in learn], "c13learn", validate=False)
+    dscheds = []
+    for (li, ls) in learn:
+        ent = [e for e in lsum["sizes"].get(ls["id"], []) if e["step"] == li and e["a"] == "leave"]
+        if ent and ent[0]["after"] is not None and not ent[0]["compact"] and ent[0]["before"] >= 256 * ent[0]["n"] and ent[0]["n"] > 0:
+            for d in (0, 5):
+                dscheds.append(directed(ls, ent[0], d, 410000 + len(dscheds)))
+    summ = run_all(ctx, binary, scheds + dscheds, "c13")
+    scheds += dscheds
     viol, seen = confirm(ctx, binary, summ, {s["id"]: s for s in scheds}, "C13_")
     leaves = sum(1 for s in scheds for st in s["steps"] if st["a"] == "leave")
     mc = bg.join()
@@ -566,4 +728,4 @@ def run_c13(ctx, binary):
            "rejoin-after-leave settings and thresholds 0/300/128K; distinct = distinct (history, threshold)",
            {"model_constants": "exhaustive: 2 names, times 0..%d, <=%d inputs, %d sessions, both rejoin-after-leave settings, "
                                "thresholds {0,60,never}" % (2 if th else 1, 5, 3 if th else 2),
-            "evaluations": leaves}, ASSUME)
+            "evaluations": leaves, "leave_line_crosses_threshold_schedules": len(dscheds)}, ASSUME)
